@@ -788,3 +788,108 @@ Definition comma_expression (C : container) (kws : list (kwid * value)) : option
       fold_left (fun acc p => match acc with Some s => comma_set_of C s p | None => None end)
                 rest (comma_param_of C a b)
   end.
+
+(* ------------------------------------------------------------------ wave 4: how a set is copied, and the
+   routes a set can take from the comma expression to the by-value parameter of tapkee::embed.
+   The state of a ParametersSet is BOTH members (map + duplicate record); the translator reads the copy
+   constructor and operator= in the shapes they reasonably take and emits gen_copying:
+     cy_ctor    the members the copy constructor initialises from its argument (a member it does not name is
+                default-initialised: empty)
+     cy_assign  AsFields fs    operator=(const ParametersSet& o) { this->f = o.f; ... return *this; }  for f in fs
+                               (a member that is not assigned keeps the value the target had)
+                AsCopySwap fs  operator=(ParametersSet o) { f.swap(o.f); ... return *this; }: the argument is made
+                               by the copy constructor, the members in fs are exchanged with it, the others stay *)
+Inductive cfield := FMap | FDups.
+Definition cfield_eqb (a b : cfield) : bool :=
+  match a, b with FMap, FMap | FDups, FDups => true | _, _ => false end.
+Definition has_field (f : cfield) (fs : list cfield) : bool := existsb (cfield_eqb f) fs.
+
+Inductive cassign := AsFields (fs : list cfield) | AsCopySwap (fs : list cfield).
+Record copying := { cy_ctor : list cfield; cy_assign : cassign }.
+
+(* the members in fs come from o, the others from t *)
+Definition take_fields (fs : list cfield) (t o : pset) : pset :=
+  {| ps_map := if has_field FMap fs then ps_map o else ps_map t;
+     ps_dups := if has_field FDups fs then ps_dups o else ps_dups t |}.
+
+(* ParametersSet q(o) *)
+Definition copy_construct (C : copying) (o : pset) : pset := take_fields (cy_ctor C) ps_empty o.
+
+(* t = o  (the new value of t) *)
+Definition assign (C : copying) (t o : pset) : pset :=
+  match cy_assign C with
+  | AsFields fs => take_fields fs t o
+  | AsCopySwap fs => take_fields fs t (copy_construct C o)
+  end.
+
+Inductive route :=
+| RtDirect                               (* the set as the expression built it *)
+| RtCopy (r : route)                     (* ParametersSet q(p); *)
+| RtAssign (old : pset) (r : route)      (* q held `old` (ps_empty: a fresh set);  q = p; *)
+| RtSelfAssign (r : route)               (* q = q; *)
+| RtKwargs (r : route)                   (* kwargs[p]: by value in, by value out *)
+| RtChain (r : route)                    (* with(p).withKernel(k).withDistance(d).withFeatures(f): each state copies *)
+| RtMerge (d : pmap) (r : route).        (* q.merge(d) on the routed set (the set is the receiver) *)
+
+Fixpoint route_set (K : container) (C : copying) (r : route) (s : pset) : option pset :=
+  match r with
+  | RtDirect => Some s
+  | RtCopy r' => option_map (copy_construct C) (route_set K C r' s)
+  | RtAssign old r' => option_map (assign C old) (route_set K C r' s)
+  | RtSelfAssign r' => option_map (fun q => assign C q q) (route_set K C r' s)
+  | RtKwargs r' => option_map (fun q => copy_construct C (copy_construct C q)) (route_set K C r' s)
+  | RtChain r' =>
+      option_map (fun q => copy_construct C (copy_construct C (copy_construct C (copy_construct C q))))
+                 (route_set K C r' s)
+  | RtMerge d r' =>
+      match route_set K C r' s with
+      | Some q => match run_merge K q d with CNormal q' => Some q' | _ => None end
+      | None => None
+      end
+  end.
+
+(* embed() takes the set by value: one more copy construction *)
+Definition arrives (K : container) (C : copying) (r : route) (s : pset) : option pset :=
+  option_map (copy_construct C) (route_set K C r s).
+
+Fixpoint merge_free (r : route) : bool :=
+  match r with
+  | RtDirect => true
+  | RtCopy r' | RtAssign _ r' | RtSelfAssign r' | RtKwargs r' | RtChain r' => merge_free r'
+  | RtMerge _ _ => false
+  end.
+
+(* embed() run on the set that arrives by route rt from the comma expression of the request *)
+Definition exec_via (K : container) (C : copying) (rt : route) (T : tables) (r : request)
+  : option (trace * result) :=
+  match comma_expression K (rq_kws r) with
+  | Some s =>
+      match arrives K C rt s with
+      | Some q => Some (exec_stages T r q (t_stages T))
+      | None => None
+      end
+  | None => None
+  end.
+
+(* the routes harness/c14.cpp drives (same numbering); the previous contents of a re-used variable *)
+Definition used_without_duplicate : list (kwid * value) :=
+  [(4%nat, VIndex 7); (5%nat, VIndex 1); (7%nat, VScalar (5 # 2)); (1%nat, VMethod 16%nat);
+   (8%nat, VIndex 17); (15%nat, VBool false)].
+Definition used_with_duplicate : list (kwid * value) :=
+  [(5%nat, VIndex 1); (4%nat, VIndex 7); (5%nat, VIndex 2)].
+
+Definition route_of_id (id : nat) (self : list (kwid * value)) : option route :=
+  match id with
+  | 0%nat => Some RtDirect
+  | 1%nat => Some (RtCopy RtDirect)
+  | 2%nat => Some (RtAssign ps_empty RtDirect)
+  | 3%nat => Some (RtAssign (ps_build used_without_duplicate) RtDirect)
+  | 4%nat => Some (RtAssign (ps_build used_with_duplicate) RtDirect)
+  | 5%nat => Some (RtSelfAssign (RtAssign ps_empty RtDirect))
+  | 6%nat => Some (RtCopy (RtKwargs RtDirect))
+  | 7%nat => Some (RtChain RtDirect)
+  | 8%nat => Some (RtMerge [] (RtMerge (ps_map (ps_build self)) (RtCopy RtDirect)))
+  | 9%nat => Some (RtAssign (ps_build used_with_duplicate) (RtCopy (RtCopy RtDirect)))
+  | 10%nat => Some (RtAssign (ps_build used_with_duplicate) (RtCopy RtDirect))
+  | _ => None
+  end.
